@@ -91,10 +91,28 @@ def gen_cases(ctx, quick):
     for _ in range(500 if quick else 20000):
         d = rng.bytes(rng.range(0, 80)) if rng.chance(1, 2) else b"<" + bytes(rng.choice(b"abc<>/&;\"'= !-[]?xml") for _ in range(rng.range(0, 80)))
         cases.append((cc.x2w_line(d, **opts()), "random", d))
+    # string-table stress: texts and attribute values from a small vocabulary, repeated whole and as words inside longer strings
+    vocab = [b"hello", b"world", b"there", b"string", b"table", b"entry", b"wxyz", b"abc", b"alpha beta", b"  padded  "]
+    for _ in range(300 if quick else 20000):
+        ps = []
+        for _ in range(rng.range(2, 12)):
+            t = b" ".join(rng.choice(vocab) for _ in range(rng.range(1, 3)))
+            if rng.chance(1, 4):
+                ps.append(b'<p title="%s">%s</p>' % (b" ".join(rng.choice(vocab) for _ in range(rng.range(1, 3))), t))
+            elif rng.chance(1, 6):
+                nm = rng.choice([b"zz", b"zzyy", b"yy"])          # unknown element: literal name in the string table
+                ps.append(b"<" + nm + b">" + t + b"</" + nm + b">")
+            else:
+                ps.append(b"<p>" + t + b"</p>")
+        d = cc.WML_DOCTYPE + b"<wml><card>" + b"".join(ps) + b"</card></wml>"
+        cases.append((cc.x2w_line(d, strtbl=1, keep=rng.below(2), version=rng.below(4), anon=rng.below(2)), "strtbl-words", d))
     L = 1000
     for n in (L - 10, L - 3, L - 2, L - 1, L, L + 1, 5000, 100000):
         d = cc.deep_xml(n)
         cases.append((cc.x2w_line(d, **opts()), "deep", d))
+    for n in (50, L - 5, L + 5, 3000, 200000):
+        d = cc.deep_embedded_xml(n)
+        cases.append((cc.x2w_line(d, strtbl=rng.below(2)), "deep", d))
     for n in (1000, 20000 if quick else 60000):
         for st in (0, 1):
             d = cc.wide_xml(n)
